@@ -175,6 +175,22 @@ Theorem hash_controller_claims : forall ver h pa cs,
 Proof. exact hash_reconcile_claims. Qed.
 Print Assumptions hash_controller_claims.
 
+(* Claim creation reads the pool object: under ANY interleaving of template edits and hash-controller reconciles
+   before the build, the new claim's stamp is the hash of the template it is built from, under the current version *)
+Theorem stamp_is_template_hash : forall ver ops s,
+  build_stamp ver (run_pool ver ops s) = (Some (current_template ops (ps_template_hash s)), Some ver).
+Proof. exact stamp_is_template_hash_l. Qed.
+Print Assumptions stamp_is_template_hash.
+
+(* ... so once the hash controller has caught up (at least one reconcile, no further edit) the claim is not
+   statically drifted, whatever was stamped on the pool when the claim was built *)
+Theorem fresh_claim_not_static : forall ver ops s n,
+  let built := run_pool ver ops s in
+  let later := run_pool ver (repeat PHashCtl (S n)) built in
+  static_drifted (fst (ps_ann later)) (snd (ps_ann later)) (fst (build_stamp ver built)) (snd (build_stamp ver built)) = false.
+Proof. exact fresh_claim_not_static_l. Qed.
+Print Assumptions fresh_claim_not_static.
+
 (* NO SELF DRIFT (partial): see C15/DriftProofs.v for the reading of the premise *)
 Theorem no_self_drift_partial : forall p pod final ver h age cached wk rk rid cat prev,
   entries_valid (p_reqs p) -> NoDup (map fst final) ->
